@@ -129,17 +129,20 @@ def Query.fuel (q : Query) : Nat :=
 def line1 (Y : List Name) (e : Expr) (G : MG Name) : Expr :=
   sumSafe e (plainVars (diff' (regularNodes G) Y))
 
+/-- line 2's re-tagging: a bare `PopulationProbability` gets `population = query.domain` and loses its parents;
+a `Probability` without population raises `TypeError` -/
+def retag (dom : Pop) : Expr → Except Err Expr
+  | .prob (some _) c _ => .ok (.prob (some (popVar dom)) c [])
+  | .prob none _ _ => .error (.internal "TypeError")
+  | e => .ok e
+
 /-- `trso_line2(query, outcomes_ancestors)` -/
 def line2 (q : Query) (anc : List Name) : Except Err Query := do
   let graphs ← q.graphs.mapM fun (d, g) => do
     let a ← g.ancestorsInclusive q.Y
     pure (d, g.subgraph (nsort a))
   let g ← q.graph
-  let e := sumSafe q.expr (plainVars (diff' (regularNodes g) anc)) true
-  let e ← match e with
-    | .prob (some _) c _ => Except.ok (Expr.prob (some (popVar q.domain)) c [])
-    | .prob none _ _ => Except.error (Err.internal "TypeError")
-    | e => Except.ok e
+  let e ← retag q.domain (sumSafe q.expr (plainVars (diff' (regularNodes g) anc)) true)
   pure { q with X := inter' q.X anc, graphs := graphs, expr := e }
 
 /-- `graph.get_no_effect_on_outcomes(X, Y)` -/
@@ -161,14 +164,22 @@ def allTransportsDSeparated (sep : SepTest) (G : MG Name) (X Y : List Name) : Ex
     if t ∈ g.nodes then Y.mapM (fun y => sep g t y X) else pure []
   pure (rs.all (fun r => r.all id))
 
-/-- `_line_6_helper(query, domain, graph)` -/
-def line6Helper (sep : SepTest) (q : Query) (d : Pop) (G : MG Name) : Except Err (Option Query) := do
-  let Z ← lookup q.surr d
-  let zx := inter' Z q.X
-  if zx.isEmpty then pure none
-  else if !(← allTransportsDSeparated sep G q.X q.Y) then pure none
-  else pure (some { q with X := diff' q.X Z, domain := d, graphs := assign q.graphs d (G.removeNodes zx),
-                           active := nsort zx })
+/-- the sub-query of line 6 for domain `d` with experiments `Z` -/
+def line6Query (q : Query) (d : Pop) (G : MG Name) (Z : List Name) : Query :=
+  { q with X := diff' q.X Z, domain := d, graphs := assign q.graphs d (G.removeNodes (inter' Z q.X)),
+           active := nsort (inter' Z q.X) }
+
+/-- `_line_6_helper(query, domain, graph)`: the separation test is evaluated only when the domain has an
+experiment on some target intervention -/
+def line6Helper (sep : SepTest) (q : Query) (d : Pop) (G : MG Name) : Except Err (Option Query) :=
+  match lookup q.surr d with
+  | .error e => .error e
+  | .ok Z =>
+    if (inter' Z q.X).isEmpty then .ok none
+    else match allTransportsDSeparated sep G q.X q.Y with
+      | .error e => .error e
+      | .ok false => .ok none
+      | .ok true => .ok (some (line6Query q d G Z))
 
 /-- `trso_line6`: the sub-queries of the usable source domains, in dictionary order -/
 def line6 (sep : SepTest) (q : Query) : Except Err (List (Pop × Query)) := do
@@ -216,27 +227,30 @@ def indexOf? (l : List Name) (v : Name) : Except Err Nat :=
   | none => .error (.internal "ValueError")
 
 /-- `trso_line9(query, district)` -/
-def line9 (q : Query) (G : MG Name) (district : List Name) : Except Err Expr := do
-  if isZero q.expr then throw (.internal "RuntimeError")
-  let order ← regularOrder G
-  let prod ← (nsort district).foldlM (fun (acc : Expr) node => do
-      let i ← indexOf? order node
-      let (num, den) := ratioParts q.expr order i
-      mul acc (← truediv num den)) Expr.one
-  let prod ← simplifyCast prod
-  pure (sumSafe prod (plainVars (diff' district q.Y)))
+def line9 (q : Query) (G : MG Name) (district : List Name) : Except Err Expr :=
+  if isZero q.expr then .error (.internal "RuntimeError")
+  else do
+    let order ← regularOrder G
+    let prod ← (nsort district).foldlM (fun (acc : Expr) node => do
+        let i ← indexOf? order node
+        let fr ← truediv (ratioParts q.expr order i).1 (ratioParts q.expr order i).2
+        mul acc fr) Expr.one
+    let prod ← simplifyCast prod
+    pure (sumSafe prod (plainVars (diff' district q.Y)))
+
+/-- one factor of line 10 -/
+def line10Factor (q : Query) (order : List Name) (carriedIsJoint : Bool) (node : Name) : Except Err Expr := do
+  let i ← indexOf? order node
+  if carriedIsJoint then
+    pure (Expr.prob (some (popVar q.domain)) [Var.plain node] (plainVars (order.take i)))
+  else
+    truediv (ratioParts q.expr order i).1 (ratioParts q.expr order i).2
 
 /-- `trso_line10(query, district, new_surrogate_interventions)` -/
 def line10 (q : Query) (G : MG Name) (district : List Name) (surr : List (Pop × List Name)) : Except Err Query := do
   let order ← regularOrder G
   let carriedIsJoint := match q.expr with | .prob (some _) _ [] => true | _ => false
-  let factors ← (nsort district).mapM fun node => do
-    let i ← indexOf? order node
-    if carriedIsJoint then
-      pure (Expr.prob (some (popVar q.domain)) [Var.plain node] (plainVars (order.take i)))
-    else
-      let (num, den) := ratioParts q.expr order i
-      truediv num den
+  let factors ← (nsort district).mapM (line10Factor q order carriedIsJoint)
   let e ← canonicalize (productSafe factors)
   pure { q with X := inter' q.X district, expr := e, graphs := assign q.graphs q.domain (G.subgraph (nsort district)),
                 surr := surr }
@@ -292,29 +306,34 @@ def step67 (sep : SepTest) (rec : Rec) (q : Query) : Except Err (Option Expr) :=
     pure (rs.filterMap id).head?
   else pure none
 
+/-- which experiments stay usable after line 10: none when the run is still in the target domain; inside a source
+domain line 10 is refused (`none`) when a selection node points into the district -/
+def line10Surr (q : Query) (G : MG Name) (c' : List Name) : Except Err (Option (List (Pop × List Name))) :=
+  if q.active.isEmpty then .ok (some [])
+  else match pillowHasTransport G c' with
+    | .error e => .error e
+    | .ok true => .ok none
+    | .ok false => .ok (some q.surr)
+
 /-- lines 8-11 -/
 def step811 (rec : Rec) (q : Query) (G : MG Name) (dwi : List (List Name)) : Except Err (Option Expr) :=
-  let districts := G.districts
-  if districts.length ≤ 1 then pure none
+  if G.districts.length ≤ 1 then .ok none
   else match dwi with
-    | [] => throw (.internal "RuntimeError")
+    | [] => .error (.internal "RuntimeError")
     | c :: _ =>
-      if districts.any (fun d => seteq' d c) then do
-        pure (some (← canonicalize (← line9 q G c)))
+      if G.districts.any (fun d => seteq' d c) then do
+        let e9 ← line9 q G c
+        pure (some (← canonicalize e9))
       else
         -- line 10
-        match districts.filter (fun d => subset' c d) with
+        match G.districts.filter (fun d => subset' c d) with
         | [c'] => do
-          let surr' : Option (List (Pop × List Name)) ←
-            if q.active.isEmpty then pure (some [])
-            else if ← pillowHasTransport G c' then pure none
-            else pure (some q.surr)
-          match surr' with
+          match ← line10Surr q G c' with
           | none => pure none
           | some s =>
             let q' ← line10 q G c' s
             c14nSafe (← rec q')
-        | _ => throw (.internal "RuntimeError")
+        | _ => .error (.internal "RuntimeError")
 
 /-- `trso(query)` with an explicit recursion budget -/
 def trsoF (sep : SepTest) : Nat → Query → Except Err (Option Expr)
@@ -335,23 +354,27 @@ def trsoF (sep : SepTest) : Nat → Query → Except Err (Option Expr)
 /-- `trso(query)` -/
 def trso (sep : SepTest) (q : Query) : Except Err (Option Expr) := trsoF sep q.fuel q
 
-/-- `check_and_raise_missing` -/
-def checkMissing (nodes : List Name) (G : MG Name) : Except Err Unit :=
-  if nodes.all (· ∈ G.nodes) then .ok () else .error (.invalidInput "ValueError")
+/-- what `identify_target_outcomes` validates (every failed check raises the documented `ValueError`):
+the four `check_and_raise_missing` calls, outcomes and interventions disjoint, the two dictionaries have the same
+keys (`surrogate_to_transport`), and the graph has a node (`Distribution` needs a child) -/
+def validInput (G : MG Name) (Y X : List Name) (outcomes interventions : List (Pop × List Name)) : Bool :=
+  Y.all (· ∈ G.nodes) && X.all (· ∈ G.nodes) && (outcomes.flatMap (·.2)).all (· ∈ G.nodes) &&
+  (interventions.flatMap (·.2)).all (· ∈ G.nodes) && (inter' Y X).isEmpty &&
+  seteq' (outcomes.map (·.1)) (interventions.map (·.1)) && !G.nodes.isEmpty
+
+/-- the `TRSOQuery` built by `identify_target_outcomes` -/
+def initialQuery (G : MG Name) (Y X : List Name) (graphs : List (Pop × MG Name)) (interventions : List (Pop × List Name)) :
+    Query :=
+  { X := nsort X, Y := nsort Y, expr := .prob (some (popVar targetPop)) (plainVars G.nodes) [],
+    active := [], domain := targetPop, graphs := graphs, surr := interventions }
 
 /-- `identify_target_outcomes(graph, target_outcomes=Y, target_interventions=X, surrogate_outcomes, surrogate_interventions)` -/
 def identifyTargetOutcomes (sep : SepTest) (G : MG Name) (Y X : List Name)
-    (outcomes interventions : List (Pop × List Name)) : Except Err (Option Expr) := do
-  checkMissing Y G
-  checkMissing X G
-  checkMissing (outcomes.flatMap (·.2)) G
-  checkMissing (interventions.flatMap (·.2)) G
-  if !(inter' Y X).isEmpty then throw (.invalidInput "ValueError")
-  let graphs ← surrogateToTransport G outcomes interventions
-  if G.nodes.isEmpty then throw (.internal "ValueError")
-  let q : Query := { X := nsort X, Y := nsort Y, expr := .prob (some (popVar targetPop)) (plainVars G.nodes) [],
-                     active := [], domain := targetPop, graphs := graphs, surr := interventions }
-  trso sep q
+    (outcomes interventions : List (Pop × List Name)) : Except Err (Option Expr) :=
+  if !validInput G Y X outcomes interventions then .error (.invalidInput "ValueError")
+  else match surrogateToTransport G outcomes interventions with
+    | .error e => .error e
+    | .ok graphs => trso sep (initialQuery G Y X graphs interventions)
 
 end Trso
 end Y0
